@@ -156,3 +156,105 @@ func vfH_C15_deadlines() {
 		vfrt.Assert(last.IsZero(), "deadlines/no-deadline-left-once-the-head-is-read")
 	}
 }
+
+//vf:assume C15-keepalive: one connection carrying two requests (the second arrives in a later segment), then end-of-stream; symbolic idle / read-header / read timeouts; every read, write and SetReadDeadline of the connection takes a clock reading, and each deadline is compared with the readings around it
+
+type vfTimedConn struct {
+	*VfConn
+	events []vfTimedEvent
+}
+
+type vfTimedEvent struct {
+	kind     byte // 'r' read, 'w' write, 'd' deadline
+	at       time.Time
+	deadline time.Time
+}
+
+func (c *vfTimedConn) Read(p []byte) (int, error) {
+	c.events = append(c.events, vfTimedEvent{kind: 'r', at: time.Now()})
+	return c.VfConn.Read(p)
+}
+func (c *vfTimedConn) Write(p []byte) (int, error) {
+	c.events = append(c.events, vfTimedEvent{kind: 'w', at: time.Now()})
+	return c.VfConn.Write(p)
+}
+func (c *vfTimedConn) SetReadDeadline(t time.Time) error {
+	c.events = append(c.events, vfTimedEvent{kind: 'd', at: time.Now(), deadline: t})
+	return c.VfConn.SetReadDeadline(t)
+}
+
+//vf:harness property=C15 nopanic reach=keepalive-second-idle,keepalive-second-header,keepalive-final-idle steps=8000000
+func vfH_C15_keepalive() {
+	p := &Proxy{}
+	p.TestingSkipRoundTrip = true
+	p.init()
+	p.IdleTimeout = vfDur("idle-timeout")
+	p.ReadHeaderTimeout = vfDur("read-header-timeout")
+	p.ReadTimeout = vfDur("read-timeout")
+	first := "GET http://example.com/1 HTTP/1.1\r\nHost: example.com\r\n\r\n"
+	conn := &vfTimedConn{VfConn: NewVfConn([]byte(first + "GET http://example.com/2 HTTP/1.1\r\nHost: example.com\r\n\r\n"))}
+	conn.Chunk = len(first)
+	p.handleLoop(conn)
+
+	idle := p.IdleTimeout
+	if idle == 0 {
+		idle = p.ReadTimeout
+	}
+	hdr := p.ReadHeaderTimeout
+	if hdr == 0 {
+		hdr = p.ReadTimeout
+	}
+	// walk the event log: between two responses the first deadline is the idle deadline, the second the header
+	// deadline, a third (if any) the whole-request deadline
+	phase := 0
+	exchange := 0
+	var prev time.Time      // the clock reading of the preceding event
+	var firstByte time.Time // the last reading known to precede the first byte of the current request head
+	for i, e := range conn.events {
+		if i > 0 {
+			prev = conn.events[i-1].at
+		}
+		switch e.kind {
+		case 'w':
+			if phase != 0 {
+				exchange++
+			}
+			phase = 0
+		case 'd':
+			phase++
+			var limit time.Duration
+			switch phase {
+			case 1:
+				limit = idle
+				if exchange == 1 {
+					vfrt.Reach("keepalive-second-idle")
+				}
+				if exchange == 2 {
+					vfrt.Reach("keepalive-final-idle")
+				}
+			case 2:
+				limit = hdr
+				if exchange == 1 {
+					vfrt.Reach("keepalive-second-header")
+				}
+				firstByte = prev
+			default:
+				// the whole-request limit counts from the first byte of the head, like the header limit
+				limit = p.ReadTimeout
+				prev = firstByte
+			}
+			if limit == 0 {
+				vfrt.Assert(e.deadline.IsZero(), "keepalive/no-limit-means-no-deadline")
+				continue
+			}
+			// never earlier than the limit counted from the preceding event of this connection (end of the previous
+			// response, arrival of the first byte), never later than the limit counted from the call itself
+			if i > 0 {
+				vfrt.Assert(!e.deadline.Before(prev.Add(limit)), "keepalive/deadline-never-earlier-than-the-limit-from-the-start-of-its-phase")
+			}
+			vfrt.Assert(!e.deadline.After(e.at.Add(limit)), "keepalive/deadline-not-later-than-now-plus-limit")
+		}
+	}
+	vfrt.Assert(exchange == 2, "keepalive/both-requests-answered")
+	vfrt.Assert(conn.Closed >= 1, "keepalive/closed-at-end-of-stream")
+}
